@@ -33,13 +33,13 @@ func must(err error) {
 
 const sdl = `type I { k: Int
  name: String
- age: Int
+ age: Int @default(int: 7)
  nums: [Int!]
  tags: [String!]
  meta: JSON }
 type P { k: Int
  name: String
- age: Int
+ age: Int @default(int: 7)
  nums: [Int!]
  tags: [String!]
  meta: JSON }`
@@ -106,6 +106,9 @@ func jsonOf(k, name, age, nums, tags, meta string) string {
 	if age != "~" {
 		a, _ := strconv.Atoi(age)
 		m["age"] = a
+	} else {
+		// age has a default value: an explicit null is stored as null (an omitted field would take the default)
+		m["age"] = nil
 	}
 	if v, ok := arrOf(nums, true); ok {
 		m["nums"] = v
